@@ -30,6 +30,12 @@
         open spec fn neg_req(self) -> bool { true }
         open spec fn neg_spec(self) -> BigInt { BigInt { bigint: num_bigint::mk(-self.val()), size: None } }
     }
+    impl<'a> NotSpecImpl for &'a BigInt {
+        open spec fn obeys_not_spec() -> bool { true }
+        open spec fn not_req(self) -> bool { true }
+        /// `!x` is the bit-wise complement of the infinite two's-complement expansion: -x - 1, without a size
+        open spec fn not_spec(self) -> BigInt { BigInt { bigint: num_bigint::mk(-self.val() - 1), size: None } }
+    }
     impl<'a> BitAndSpecImpl<&'a BigInt> for &'a BigInt {
         open spec fn obeys_bitand_spec() -> bool { true }
         open spec fn bitand_req(self, rhs: &'a BigInt) -> bool { true }
